@@ -52,6 +52,15 @@ type c10Case struct {
 	// BothClients (with FreshClone): the callers with an even index use the dialled client, the others its clone: two
 	// clients of one process, each with a connection of its own, at work at the same time
 	BothClients bool `json:"even_callers_use_the_original_client,omitempty"`
+	// CloseAfterMs > 0: the client is closed that long after the callers have started, whatever they are doing (one call
+	// waiting for an answer that never comes, the others queued behind it): every call then returns, with an error or its
+	// own response; HangAfterS is the verdict time for "does not return" in that case (default 30)
+	// ReadIdleMs > 0: the transport the dialer hands out gives every Read that many milliseconds (an idle timer, as a
+	// proxying or TLS-terminating dialer may set one): a call whose answer takes longer fails with a time-out - and
+	// its answer, when it comes, is nobody's
+	ReadIdleMs   int `json:"transport_read_idle_timeout_ms,omitempty"`
+	CloseAfterMs int `json:"client_closed_after_ms,omitempty"`
+	HangAfterS   int `json:"hang_verdict_after_s,omitempty"`
 }
 
 // echoResponse builds the response the server produces for a request: it echoes the identifier it read.
@@ -200,6 +209,17 @@ func (s *c10Server) serve(c *memnet.Conn) {
 	}
 }
 
+// idleConn gives every Read a deadline of its own.
+type idleConn struct {
+	*memnet.Conn
+	idle time.Duration
+}
+
+func (c idleConn) Read(p []byte) (int, error) {
+	_ = c.Conn.SetReadDeadline(time.Now().Add(c.idle))
+	return c.Conn.Read(p)
+}
+
 func closeOnce(c chan struct{}) {
 	defer func() { _ = recover() }()
 	close(c)
@@ -285,6 +305,9 @@ func c10Run(c c10Case) (sig string, err error) {
 			return 0, nil
 		}
 		go srv.serve(b)
+		if c.ReadIdleMs > 0 {
+			return idleConn{a, time.Duration(c.ReadIdleMs) * time.Millisecond}, nil
+		}
 		return a, nil
 	}))...)
 	if derr != nil {
@@ -390,6 +413,10 @@ func c10Run(c c10Case) (sig string, err error) {
 	})
 	defer kmipclient.SetVerifYield(nil)
 	results := make(chan callResult, 64)
+	hangAfter := 30 * time.Second
+	if c.HangAfterS > 0 {
+		hangAfter = time.Duration(c.HangAfterS) * time.Second
+	}
 	var wg sync.WaitGroup
 	start := make(chan struct{})
 	for ci, calls := range c.Callers {
@@ -480,7 +507,7 @@ func c10Run(c c10Case) (sig string, err error) {
 				select {
 				case r := <-done:
 					results <- r
-				case <-time.After(30 * time.Second):
+				case <-time.After(hangAfter):
 					results <- callResult{Caller: ci, Index: i, ID: p.ID, Hung: true}
 					cancel()
 					return
@@ -501,6 +528,12 @@ func c10Run(c c10Case) (sig string, err error) {
 		}(ci, calls)
 	}
 	close(start)
+	if c.CloseAfterMs > 0 {
+		go func() {
+			time.Sleep(time.Duration(c.CloseAfterMs) * time.Millisecond)
+			_ = safely(func() error { return cl.Close() })
+		}()
+	}
 	wg.Wait()
 	close(results)
 	_ = cl.Close()
@@ -511,6 +544,9 @@ func c10Run(c c10Case) (sig string, err error) {
 	srv.mu.Unlock()
 	for r := range results {
 		if r.Hung {
+			if c.CloseAfterMs > 0 {
+				return "call-hangs-after-close", fmt.Errorf("caller %d call %d (%s) did not return within %s although the client was closed %d ms after the callers started", r.Caller, r.Index, r.ID, hangAfter, c.CloseAfterMs)
+			}
 			return "call-hangs", fmt.Errorf("caller %d call %d (%s) did not return within 30 s", r.Caller, r.Index, r.ID)
 		}
 		if r.Err == "" && r.Got != r.ID {
@@ -520,7 +556,10 @@ func c10Run(c c10Case) (sig string, err error) {
 			return "call-panics", fmt.Errorf("caller %d call %d: %s", r.Caller, r.Index, r.Err)
 		}
 		p := srv.plans[r.ID]
-		if r.Err != "" && p.Cancel == "none" && (p.Server == "reply" || p.Server == "late" || p.Server == "push-reply" || p.Server == "reply-push" || p.Server == "close-late") {
+		if c.ReadIdleMs > 0 {
+			continue // any answer may take longer than such a transport allows (on a busy machine also a prompt one)
+		}
+		if r.Err != "" && c.CloseAfterMs == 0 && p.Cancel == "none" && (p.Server == "reply" || p.Server == "late" || p.Server == "push-reply" || p.Server == "reply-push" || p.Server == "close-late") {
 			// an undisturbed call on a healthy server may only fail if an earlier call of another caller tore the shared connection down;
 			// the client retries on a fresh connection, so it must succeed
 			return "undisturbed-call-fails", fmt.Errorf("caller %d call %d (%s, server %s, no cancellation) failed: %s", r.Caller, r.Index, r.ID, p.Server, r.Err)
@@ -596,6 +635,9 @@ func TestC10OwnResponse(t *testing.T) {
 		c.Correlation = rapid.SampledFrom([]string{"", "", "unique", "shared", "alternate"}).Draw(rt, "correlation")
 		c.FreshClone = rapid.IntRange(0, 2).Draw(rt, "fresh-clone") == 0
 		c.BothClients = c.FreshClone && rapid.Bool().Draw(rt, "both-clients")
+		if rapid.IntRange(0, 4).Draw(rt, "read-idle") == 0 {
+			c.ReadIdleMs = rapid.SampledFrom([]int{5, 8, 50}).Draw(rt, "read-idle-ms")
+		}
 		key, _ := json.Marshal(c)
 		rec.Case(nt, key, fmt.Sprintf("callers=%d", n), "correlation="+c.Correlation)
 		if nt && rec.WantSample() {
